@@ -141,7 +141,11 @@ def value_strategy(name, prof):
   if name == "Overflow":
     return enum_of(s.OverflowType)
   if name == "Padding":
-    return st.builds(s.PaddingType, *[lengths(prof, ANY_U)] * 4)
+    # four independent lengths, or the patterns that the one- to three-component shorthands of tts:padding stand for
+    def shaped(a, b, c, d, k):
+      before, end, after, start = [(a, b, c, d), (a, a, a, a), (a, b, a, b), (a, b, c, b), (a, b, a, d), (a, a, c, d)][k]
+      return s.PaddingType(before, end, after, start)
+    return st.builds(shaped, *[lengths(prof, ANY_U)] * 4, st.sampled_from([0, 0, 0, 1, 2, 3, 4, 5]))
   if name == "Position":
     he = enum_of(s.PositionType.HEdge) if prof["edges"] else st.just(s.PositionType.HEdge.left)
     ve = enum_of(s.PositionType.VEdge) if prof["edges"] else st.just(s.PositionType.VEdge.top)
@@ -250,7 +254,8 @@ def _text(draw, ctx, nonblank=False):
     elif prof["text_markup"]:
       pieces.append(draw(st.sampled_from(["&", "<", ">", '"', "-->", "{", "&amp;", "<b>", "}", "\\"])))
     elif prof["text_unicode"]:
-      pieces.append(draw(st.sampled_from(["\U0001F600", "e\u0301", "\u00e9", "\u4e2d", "\u05d0", "\u00a0", "\u2028", "\u3000"])))
+      pieces.append(draw(st.sampled_from(["\U0001F600", "e\u0301", "\u00e9", "\u4e2d", "\u05d0", "\u00a0", "\u2028", "\u3000", "\u0085",
+                                          "\u2029", "\u2003"])))
     elif not prof["xml_safe"]:
       pieces.append(draw(st.sampled_from(["\r", "\r\n", "\r "])))
   return "".join(pieces)
@@ -367,6 +372,23 @@ def docspecs(draw, prof=None):
   if prof["time_shifts"]:
     shift_times(d, draw(st.sampled_from(prof["time_shifts"])))
   return d
+
+
+def equal_steps_on_siblings(spec, value, offset_second=True):
+  """two siblings, the first ending at 2 s, the second beginning at 3 s (or, with offset_second=False, with its parent), each carrying
+  the step (Color, begin 1 s, `value`): value-equal animation steps are equal objects for anything keyed by value"""
+  if spec["body"] is None:
+    return spec
+  for n in walk(spec["body"]):
+    kids = [k for k in n["kids"] if k["kind"] in ("div", "p", "span")]
+    if len(kids) >= 2:
+      a, b = kids[0], kids[1]
+      a["begin"], a["end"] = None, F(2)
+      b["begin"], b["end"] = (F(3) if offset_second else None), None
+      for k in (a, b):
+        k["anims"] = [x for x in k["anims"] if x[0] != "Color"] + [("Color", F(1), None, value)]
+      break
+  return spec
 
 
 def shift_times(spec, shift):
